@@ -12,7 +12,7 @@ try:
         pass
 except ImportError:
     pass
-TARGETS = [pc.PI + m for m in ("advance", "_overwrite", "finish")]
+TARGETS = [pc.PI + m for m in ("start", "advance", "current_value", "_overwrite", "finish")]
 LEMMAS = []
 
 # what this property says about text on the stream rests on the write path of Output / SectionOutput / IO (the text reaches
